@@ -81,8 +81,14 @@ class EvqRun:
             _, asset, dt, prio, inner = op
             self.labels += 1
             act = HarnessAction(self, self.labels, inner)
+            if dt == 'eps':          # the largest representable time that is still in the past
+                t = math.nextafter(env.now, -math.inf)
+            elif dt == 'eps_rel':    # a time one part in 10^10 before now
+                t = env.now - max(abs(env.now) * 1e-10, 1e-13)
+            else:
+                t = env.now + dt
             try:
-                env.schedule_event(env.now + dt, asset, act, prio)
+                env.schedule_event(t, asset, act, prio)
             except ValueError:
                 pass        # judged by the monitor's schedule_call
         elif kind == 'pause':
@@ -193,6 +199,8 @@ def random_ops(rng, decimal=False, pause_centric=False, aim_pauses=False):
             dt = rng.choice(grid)
             if rng.random() < 0.04:
                 dt = -rng.choice(grid[2:])       # attempt to schedule in the past
+            elif rng.random() < 0.04:
+                dt = rng.choice(['eps', 'eps_rel'])   # ... by the smallest possible margin
             ops.append(['sched', rng.choice(assets), dt, rng.choice(prios),
                         nested_ops(0) if rng.random() < 0.35 else None])
         elif x < 0.40 + w_pause:
